@@ -81,11 +81,15 @@ func cloneVal(v Val) Val {
 		}
 		return n
 	case *BufV:
-		return &BufV{Data: cloneVal(x.Data).(*ArrayV)}
+		return &BufV{Data: cloneVal(x.Data).(*ArrayV), Handed: append([]int(nil), x.Handed...)}
 	case *RdrV:
-		return &RdrV{Src: x.Src, Pos: x.Pos}
+		return &RdrV{Src: x.Src, Pos: x.Pos, Failed: x.Failed}
 	case *MapV:
 		if x.Const {
+			return x
+		}
+		if x.Dyn {
+			// tracked maps are replaced, never mutated, on update: the value can be shared
 			return x
 		}
 		return &MapV{Unk: true, ElemT: x.ElemT}
@@ -675,6 +679,46 @@ func (st *State) Assume(op string, x, y *IntV) bool {
 		}
 	}
 	refine1(d, op)
+	// two symbols with coefficients +1 / -1 (s1 - s2 + c op 0): interval propagation in both directions, so that a guard
+	// "lo < hi" between two counters bounds each of them by the other's range
+	if len(d.Syms) == 2 && ((d.Coefs[0] == 1 && d.Coefs[1] == -1) || (d.Coefs[0] == -1 && d.Coefs[1] == 1)) && (op == "<" || op == "<=" || op == ">" || op == ">=") {
+		s1, s2 := d.Syms[0], d.Syms[1]
+		if d.Coefs[0] == -1 {
+			s1, s2 = s2, s1
+		}
+		// s1 - s2 + c op 0
+		c := d.C
+		strict := int64(0)
+		if op == "<" || op == ">" {
+			strict = 1
+		}
+		l1, h1 := st.SymRange(s1)
+		l2, h2 := st.SymRange(s2)
+		addOK := func(a, b int64) (int64, bool) {
+			r := a + b
+			if (b > 0 && r < a) || (b < 0 && r > a) {
+				return 0, false
+			}
+			return r, true
+		}
+		if op == "<" || op == "<=" {
+			// s1 <= s2 - c - strict
+			if v, ok := addOK(h2, -c-strict); ok && v < h1 {
+				st.refineSym(s1, l1, v)
+			}
+			if v, ok := addOK(l1, c+strict); ok && v > l2 {
+				st.refineSym(s2, v, h2)
+			}
+		} else {
+			// s1 >= s2 - c + strict
+			if v, ok := addOK(l2, -c+strict); ok && v > l1 {
+				st.refineSym(s1, v, h1)
+			}
+			if v, ok := addOK(h1, c-strict); ok && v < h2 {
+				st.refineSym(s2, l2, v)
+			}
+		}
+	}
 	// linear facts
 	switch op {
 	case "<=":
